@@ -36,8 +36,8 @@ CONSTANTS Ids,       \* primary ids (positive integers)
           Datas,     \* payloads
           Nodes,     \* Redis nodes
           Place,     \* [Keys -> Nodes]
-          E,         \* configured expiry (s), multiple of 20 so that +-5% are whole seconds
-          NF,        \* configured not-found expiry (s), multiple of 20
+          E,         \* configured expiry (s)
+          NF,        \* configured not-found expiry (s)
           Gap,       \* safety gap between index and primary entry (5 s)
           Ladder,    \* retry delays in seconds, e.g. <<1, 5, 60, 300, 3600>>
           Jits,      \* subset of {"lo", "mid", "hi"}: jitter choices explored
@@ -63,11 +63,11 @@ RowEntry(i, r, exp) == [kind |-> "row", id |-> i, name |-> r.name, data |-> r.da
 NfEntry(exp)        == [kind |-> "nf", id |-> 0, name |-> "", data |-> "", exp |-> exp]
 PkEntry(i, exp)     == [kind |-> "pk", id |-> i, name |-> "", data |-> "", exp |-> exp]
 
-Lo(b) == (b * 95) \div 100       \* = ceil(0.95 b) for b a multiple of 20
-Hi(b) == (b * 105) \div 100      \* = ceil(1.05 b)
+Lo(b) == (b * 95 + 99) \div 100      \* ceil(0.95 b): the TTL is rounded up to whole seconds
+Hi(b) == (b * 105 + 99) \div 100     \* ceil(1.05 b)
 TTLof(j, b) == CASE j = "hi" -> Hi(b) [] j = "mid" -> b [] j = "lo" -> Lo(b)
 
-ASSUME /\ E % 20 = 0 /\ NF % 20 = 0
+ASSUME /\ E >= 1 /\ NF >= 1
        /\ \A r \in 1..(Len(Ladder) - 1) : Ladder[r] < Ladder[r + 1]     \* "increasing delays"
        /\ Len(Ladder) >= 1 /\ Ladder[1] >= 1
 
